@@ -285,9 +285,10 @@ def fam_geometry(tier):
     for sp in specs:
         yield {'w': 'pair', 'spec': sp, 'sig': 'C10:pair:%s:%s' % (sp['ext'], sp.get('kind', 'acorn')),
                'note': '%dx%d total=%s' % (sp['tracks'], sp['spt'], sp.get('total'))}
-    if tier == 'thorough':
-        yield {'w': 'pair', 'spec': {'ext': 'mmb', 'tracks': 80, 'spt': 10, 'slots': 511}, 'sig': 'C10:pair:mmb:full',
-               'cmds': [['cat'], ['cat', '1020'], ['show-titles'], ['type', '--binary', ':1020.$.HELLO']]}
+    # the largest image the tool supports: an MMB file with all 511 slots (8192 + 511*204800 bytes); 510 slots as the neighbour
+    for slots in ((511, 510) if tier == 'thorough' else (511,)):
+        yield {'w': 'pair', 'spec': {'ext': 'mmb', 'tracks': 80, 'spt': 10, 'slots': slots}, 'sig': 'C10:pair:mmb:full', 'gz': {'level': 1},
+               'cmds': [['cat'], ['cat', str(2 * (slots - 1))], ['show-titles'], ['type', '--binary', ':%d.$.HELLO' % (2 * (slots - 1))]]}
 
 
 WHERE = [('discs.gz.d', 'x.%s'), ('a.ssd', 'x.%s'), ('', 'x.gz.v2.%s'), ('', 'x.ddd.%s'), ('d.gz', 'y.gz.%s'), ('', '.gz.%s'), ('./sub.mmb.gz', 'x.%s')]
